@@ -134,3 +134,70 @@ Definition boot_model (case : bcfg * list stage) : V :=
   let c0 := load (hd_stage sts) (chan_init [] []) in
   let '(r, c, _) := bringup cfg (tl sts) c0 in
   VL [V_bres r; VN (now (io c)); VB (wr (io c))].
+
+(* ================================================================== the U-Boot stage *)
+(* UBootAutobootIntercept._init_machine and UBootShell._init_shell.  Every write (the autoboot keys, each ^C of
+   the poll loop) consumes one stage: the console's reaction to it. *)
+Record ucfg : Type := mkU {
+  u_autoboot : bool;                  (* autoboot_prompt is not None *)
+  u_keys : list N;                    (* autoboot_keys *)
+  u_prompt : list N;                  (* the U-Boot prompt *)
+  u_timeout : option Z                (* boot_timeout *)
+}.
+
+(* autoboot:\s{0,5}\d{0,3}\s{0,3}.{0,80} *)
+Definition WS : re := RCls false [(9, 13); (32, 32)]%N.
+Definition AUTOBOOT_RE : re :=
+  RSeq (RChr 97) (RSeq (RChr 117) (RSeq (RChr 116) (RSeq (RChr 111) (RSeq (RChr 98) (RSeq (RChr 111) (RSeq (RChr 111)
+  (RSeq (RChr 116) (RSeq (RChr 58)
+  (RSeq (RRep WS 0 5) (RSeq (RRep (RCls false [(48, 57)]%N) 0 3) (RSeq (RRep WS 0 3) (RRep RAny 0 80)))))))))))).
+
+Definition HALF : Z := 512.            (* 0.5 s *)
+
+Definition write_raw (s : list N) (sts : list stage) (c : chan) : res unit * chan * list stage :=
+  match s with
+  | [] => (Ret tt, c, sts)
+  | _ => let (r, c') := write s true (load (hd_stage sts) c) in (r, c', tl sts)
+  end.
+
+(* the poll loop of _init_shell: the deadline is looked at only at the head of an iteration *)
+Fixpoint poll_loop (fuel : nat) (cfg : ucfg) (start : Z) (sts : list stage) (c : chan) : bres * chan * list stage :=
+  match fuel with
+  | O => (BErr EFuel, c, sts)
+  | S f =>
+      if match u_timeout cfg with Some T => (T <? now (io c) - start)%Z | None => false end then (BTimeout, c, sts)
+      else
+        match read_until_prompt None (Some HALF) c with
+        | (Ret _, c1) => (BOk, c1, sts)
+        | (ETimeout, c1) =>
+            match write_raw [3%N] sts c1 with                       (* sendintr *)
+            | (Ret _, c2, sts2) => poll_loop f cfg start sts2 (with_io c2 (io_sleep HALF (io c2)))
+            | (e, c2, sts2) => (berr e, c2, sts2)
+            end
+        | (e, c1) => (berr e, c1, sts)
+        end
+  end.
+
+Definition uboot_bringup (fuel : nat) (cfg : ucfg) (sts : list stage) (c : chan) : bres * chan * list stage :=
+  let start := now (io c) in
+  let shell (c1 : chan) (sts1 : list stage) :=
+    poll_loop fuel cfg start sts1 (with_prompt c1 (Some (SLit (u_prompt cfg)))) in
+  if u_autoboot cfg then
+    let tmo := match u_timeout cfg with Some T => Some (T - (now (io c) - start))%Z | None => None end in
+    match read_until_prompt (Some (SRe AUTOBOOT_RE)) tmo c with
+    | (Ret _, c1) =>
+        match write_raw (u_keys cfg) sts c1 with
+        | (Ret _, c2, sts2) => shell c2 sts2
+        | (e, c2, sts2) => (berr e, c2, sts2)
+        end
+    | (e, c1) => (berr e, c1, sts)
+    end
+  else shell c sts.
+
+Definition uboot_model (case : ucfg * nat * list stage) : V :=
+  match case with
+  | (cfg, fuel, sts) =>
+      let c0 := load (hd_stage sts) (chan_init [] []) in
+      let '(r, c, _) := uboot_bringup fuel cfg (tl sts) c0 in
+      VL [V_bres r; VN (now (io c)); VB (wr (io c))]
+  end.
